@@ -106,6 +106,9 @@ type Stack struct {
 	Log       *RecLogger
 	all       []*Endpoint
 	connected bool
+	urls      []string
+	byURL     map[string]*Endpoint
+	nRPC, nWS int
 }
 
 // NewStack starts nRPC+nWS endpoints and connects a real adaptor to them.
@@ -149,25 +152,50 @@ func NewStack(nRPC, nWS int, chainID *big.Int, gasLimit, gasPrice uint64, key *e
 		return nil, err
 	}
 	s.Adaptor = a
-	if err := a.Connect(urls, time.Now().Add(60*time.Second)); err != nil {
+	s.urls, s.byURL, s.nRPC, s.nWS = urls, byURL, nRPC, nWS
+	if err := s.connect(); err != nil {
 		s.Close()
 		return nil, err
 	}
+	return s, nil
+}
+
+// connect runs the adaptor's Connect and reads the endpoint order back from its connection events.
+func (s *Stack) connect() error {
+	s.Log.mu.Lock()
+	s.Log.Events = nil
+	s.Log.mu.Unlock()
+	if err := s.Adaptor.Connect(s.urls, time.Now().Add(60*time.Second)); err != nil {
+		return err
+	}
 	s.connected = true
+	s.RPC, s.WS = nil, nil
 	for _, u := range s.Log.urls("RPC_ConnToOnchain") {
-		s.RPC = append(s.RPC, byURL[u])
+		s.RPC = append(s.RPC, s.byURL[u])
 	}
 	for _, u := range s.Log.urls("WS_ConnToOnchain") {
-		s.WS = append(s.WS, byURL[u])
+		s.WS = append(s.WS, s.byURL[u])
 	}
-	if len(s.RPC) != nRPC || len(s.WS) != nWS {
-		s.Close()
-		return nil, fmt.Errorf("chaindouble: adaptor connected %d/%d rpc and %d/%d ws endpoints (%v)", len(s.RPC), nRPC, len(s.WS), nWS, s.Log.Errors)
+	if len(s.RPC) != s.nRPC || len(s.WS) != s.nWS {
+		return fmt.Errorf("chaindouble: adaptor connected %d/%d rpc and %d/%d ws endpoints (%v)", len(s.RPC), s.nRPC, len(s.WS), s.nWS, s.Log.Errors)
 	}
 	for _, e := range s.all {
 		e.ResetCalls()
 	}
-	return s, nil
+	return nil
+}
+
+// Reconnect is what the node does when the chain connection is lost: DisconnectAll, then Connect to the same
+// URLs.  The endpoint order (s.RPC, s.WS) is re-read: it may differ from the previous connection.
+func (s *Stack) Reconnect() error {
+	if s.connected {
+		s.Adaptor.DisconnectAll()
+		s.connected = false
+	}
+	for _, e := range s.all {
+		e.ClearScript()
+	}
+	return s.connect()
 }
 
 // Close disconnects the adaptor and stops every endpoint.
